@@ -2,4 +2,4 @@
 Require Import ExtrOcamlBasic.
 Require Import SquidV.Bytes SquidV.RelayModel SquidV.gen.Relay_gen.
 Extraction "m_relay.ml" lenN relay ref_read rq_fair up_stream ref_read_up crun enc_chunked pack_chunk up_chunk
-  origin_framing client_framing srv_run rq_run bodypipe_max_capacity http_reqbuf_sz.
+  origin_framing client_framing srv_run rq_run bodypipe_max_capacity http_reqbuf_sz last_chunk.
